@@ -30,7 +30,7 @@ Section LValueInd.
 End LValueInd.
 
 (* the lazy interpreter looks captures up by their index in the file query *)
-Definition cap_ok_file (m : qmatch) (q : quant) (fi si : N) : bool := cap_ok m q fi.
+Definition by_file (f : quant -> N -> bool) (q : quant) (fi si : N) : bool := f q fi.
 
 Section LGood.
   Variable sok : N -> Prop.
@@ -212,6 +212,7 @@ Definition lshape (s : lstate) : nat * nat := (length (l_locals s), length (l_pa
 Section LSafe.
   Variable sok : N -> Prop.
   Variable base : nat.
+  Variable allowed : N -> Prop.                (* panic sites that the hypotheses do not exclude *)
 
   Definition LInv (s : lstate) : Prop := (base <= lglen s)%nat /\ stgood sok (lglen s) (slen s) s.
 
@@ -219,7 +220,7 @@ Section LSafe.
     forall s p, LInv s -> (n0 <= lglen s)%nat -> (m0 <= slen s)%nat -> lshape s = sh ->
       match c s p with
       | Ok (a, s', p') => LInv s' /\ (lglen s <= lglen s')%nat /\ (slen s <= slen s')%nat /\ lshape s' = sh' /\ Q a (lglen s') (slen s')
-      | Panic _ => False
+      | Panic x => allowed x
       | _ => True
       end.
   Definition T3 {A} : A -> nat -> nat -> Prop := fun _ _ _ => True.
@@ -258,7 +259,7 @@ Section LSafe.
   Lemma lsafe_oof A n0 m0 sh sh' (Q : A -> nat -> nat -> Prop) : lsafe n0 m0 sh sh' Q out_of_fuel.
   Proof. intros s p HI Hn Hm Hs. exact I. Qed.
   Lemma lsafe_lift A n0 m0 sh (Q : A -> nat -> nat -> Prop) (r : res A) :
-    match r with Ok a => forall n m, (n0 <= n)%nat -> (m0 <= m)%nat -> Q a n m | Panic _ => False | _ => True end ->
+    match r with Ok a => forall n m, (n0 <= n)%nat -> (m0 <= m)%nat -> Q a n m | Panic x => allowed x | _ => True end ->
     lsafe n0 m0 sh sh Q (lift r).
   Proof.
     intros H s p HI Hn Hm Hs. unfold lift. destruct r as [a|e|x|]; [|exact I|exact H|exact I].
@@ -485,6 +486,13 @@ Section LSafe.
     Hypothesis Hglob : ggood sok base glob.
     Hypothesis Hcall : GoodCall sok call.
     Hypothesis Hsh : forall sh, In sh (f_shorthands fl) -> forallb (attr_ok no_capture) (sh_attrs sh) = true.
+    Variable okc : qmatch -> quant -> N -> bool.
+    Hypothesis Hokc : forall m, Forall (fun c : N * list N => Forall sok (snd c)) m -> forall q idx, okc m q idx = true ->
+      match from_nodes (nodes_for_capture m idx) q with
+      | Ok v => forall n, vgood sok n v
+      | Panic x => allowed x
+      | _ => True
+      end.
 
     Lemma VG3_mono b n m n' m' : (n <= n')%nat -> (m <= m')%nat -> VG3 b n m -> VG3 b n' m'.
     Proof. unfold VG3. intros Hn _. apply vgood_mono, Hn. Qed.
@@ -495,7 +503,7 @@ Section LSafe.
     Proof.
       intros Ha s p HI Hn Hm Hs. unfold lcall_function, bind, get_state.
       assert (Ha' : Forall (vgood sok (length (l_graph s))) args) by (eapply vsgood_mono; [|exact Ha]; exact Hn).
-      pose proof (Hcall f (l_graph s) args Ha') as Hc. destruct (call f (l_graph s) args) as [[v g']|e|x|]; auto.
+      pose proof (Hcall f (l_graph s) args Ha') as Hc. destruct (call f (l_graph s) args) as [[v g']|e|x|]; [|exact I|contradiction|exact I].
       destruct Hc as [Hg Hv]. unfold set_lgraph, Lazy.upd, modify, ret. split; [apply LInv_set_graph; [exact HI|exact Hg]|].
       unfold lglen, slen, lshape, VG3 in *. cbn [l_graph l_store l_locals l_params]. repeat split; auto.
     Qed.
@@ -690,7 +698,7 @@ Section LSafe.
       forall q fi si, okq q fi si = true ->
         match from_nodes (nodes_for_capture m fi) q with
         | Ok v => forall n, vgood sok n v
-        | Panic _ => False
+        | Panic x => allowed x
         | _ => True
         end.
     Lemma lcaps_safe_none m : lcaps_safe m no_capture.
@@ -946,23 +954,23 @@ Section LSafe.
     Definition good_lmatch (pm : N * qmatch) : Prop :=
       match nth_error (f_stanzas fl) (N.to_nat (fst pm)) with
       | Some st => nodes_for_capture (snd pm) (st_full_file_idx st) <> [] /\
-                   forallb (stmt_ok (cap_ok_file (snd pm))) (st_stmts st) = true /\
+                   forallb (stmt_ok (by_file (okc (snd pm)))) (st_stmts st) = true /\
                    Forall (fun c : N * list N => Forall sok (snd c)) (snd pm)
       | None => False
       end.
-    Lemma lcaps_safe_cap_ok m : Forall (fun c : N * list N => Forall sok (snd c)) m -> lcaps_safe m (cap_ok_file m).
-    Proof. intros H q fi si Hq. apply cap_ok_from_nodes; assumption. Qed.
+    Lemma lcaps_safe_okc m : Forall (fun c : N * list N => Forall sok (snd c)) m -> lcaps_safe m (by_file (okc m)).
+    Proof. intros H q fi si Hq. apply Hokc; assumption. Qed.
 
     Lemma lsafe_lexec_stanza fuel st m n0 m0 sh :
-      nodes_for_capture m (st_full_file_idx st) <> [] -> forallb (stmt_ok (cap_ok_file m)) (st_stmts st) = true ->
+      nodes_for_capture m (st_full_file_idx st) <> [] -> forallb (stmt_ok (by_file (okc m))) (st_stmts st) = true ->
       Forall (fun c : N * list N => Forall sok (snd c)) m -> forallb (scans_ok regexes) (st_stmts st) = true ->
       lsafe n0 m0 sh sh T3 (lexec_stanza t fl cfg glob regexes find call fuel st m).
     Proof.
       intros Hfull Hok Hm Hsc. unfold lexec_stanza. eapply lsafe_bind; [apply lsafe_poll|]. intros _ n1 m1 _ _ _.
       eapply lsafe_bind; [apply lsafe_clear_frame|]. intros _ n2 m2 _ _ _. cbv zeta.
       destruct (nodes_for_capture m (st_full_file_idx st)) as [|n ns] eqn:En; [exfalso; apply Hfull; reflexivity|].
-      apply lsafe_iterM_in. intros s Hin n3 m3 _ _. cbv zeta. apply lsafe_ctx. apply lsafe_lexec_stmt with (okq := cap_ok_file m).
-      - cbn [ll_with_ctx ll_match]. apply lcaps_safe_cap_ok, Hm.
+      apply lsafe_iterM_in. intros s Hin n3 m3 _ _. cbv zeta. apply lsafe_ctx. apply lsafe_lexec_stmt with (okq := by_file (okc m)).
+      - cbn [ll_with_ctx ll_match]. apply lcaps_safe_okc, Hm.
       - cbn [ll_with_ctx ll_match ll_full]. rewrite En. discriminate.
       - eapply forallb_In; eauto.
       - eapply forallb_In; eauto.
@@ -986,13 +994,23 @@ End LSafe.
    the full-match capture (by its index in the file query) is bound; every capture expression of the stanza has a
    resolved quantifier and, when it is One, a node in the match (by file capture index); matched nodes satisfy sok *)
 Definition GoodMatchesLazy (sok : N -> Prop) (fl : file) (matches : list (N * qmatch)) : Prop :=
-  Forall (good_lmatch sok fl) matches.
+  Forall (good_lmatch sok fl cap_ok) matches.
+(* the same without "a capture whose quantifier is One has a node in the match" *)
+Definition GoodMatchesLazyResolved (sok : N -> Prop) (fl : file) (matches : list (N * qmatch)) : Prop :=
+  Forall (good_lmatch sok fl cap_resolved) matches.
 
-Theorem exec_no_panic_lazy {rx : Type} (sok : N -> Prop) t fl cfg supplied budget (regexes : list rx) find call fuel matches g0 :
-  WellFormedFile regexes fl -> GoodMatchesLazy sok fl matches -> GoodGlobals sok g0 supplied -> GoodCall sok call ->
-  forall x, run_lazy t fl cfg supplied budget regexes find call fuel matches g0 <> Panic x.
+Theorem exec_panics_lazy {rx : Type} (sok allowed : N -> Prop) (okc : qmatch -> quant -> N -> bool)
+    t fl cfg supplied budget (regexes : list rx) find call fuel matches g0 :
+  (forall m, Forall (fun c : N * list N => Forall sok (snd c)) m -> forall q idx, okc m q idx = true ->
+     match from_nodes (nodes_for_capture m idx) q with
+     | Ok v => forall n, vgood sok n v
+     | Panic x => allowed x
+     | _ => True
+     end) ->
+  WellFormedFile regexes fl -> Forall (good_lmatch sok fl okc) matches -> GoodGlobals sok g0 supplied -> GoodCall sok call ->
+  forall x, run_lazy t fl cfg supplied budget regexes find call fuel matches g0 = Panic x -> allowed x.
 Proof.
-  intros Hwf Hm Hg Hcall x. unfold run_lazy. unfold WellFormedFile, wf_file in Hwf. apply andb_true_iff in Hwf as [Hsc Hsh].
+  intros Hokc Hwf Hm Hg Hcall x. unfold run_lazy. unfold WellFormedFile, wf_file in Hwf. apply andb_true_iff in Hwf as [Hsc Hsh].
   destruct (check_globals (f_globals fl) (globals_nested supplied)) as [glob|e|y|] eqn:Eg; try discriminate.
   2:{ exfalso. exact (check_globals_no_panic _ _ _ Eg). }
   assert (Hglob : ggood sok (length g0) glob).
@@ -1000,9 +1018,32 @@ Proof.
   assert (HI : LInv sok (length g0) (linit g0)).
   { unfold LInv, stgood, linit, lglen, slen. cbn [l_graph l_locals l_store l_scoped l_edges l_attrs l_prints l_params].
     split; [lia|]. split; [constructor; constructor|]. repeat split; constructor. }
-  pose proof (lsafe_lexec_file sok (length g0) t fl cfg glob regexes find call Hglob Hcall
-                (fun sh Hin => forallb_In _ _ _ Hsh Hin) fuel matches 0%nat 0%nat (1%nat, 0%nat) Hm Hsc
+  pose proof (lsafe_lexec_file sok (length g0) allowed t fl cfg glob regexes find call Hglob Hcall
+                (fun sh Hin => forallb_In _ _ _ Hsh Hin) okc Hokc fuel matches 0%nat 0%nat (1%nat, 0%nat) Hm Hsc
                 (linit g0) (polls0 budget) HI (Nat.le_0_l _) (Nat.le_0_l _) eq_refl) as H.
   destruct (lexec_file t fl cfg glob regexes find call fuel matches (linit g0) (polls0 budget)) as [[[u s] p]|e|y|];
-    try discriminate. contradiction.
+    try discriminate. intros E. inversion E; subst. exact H.
 Qed.
+
+Theorem exec_no_panic_lazy {rx : Type} (sok : N -> Prop) t fl cfg supplied budget (regexes : list rx) find call fuel matches g0 :
+  WellFormedFile regexes fl -> GoodMatchesLazy sok fl matches -> GoodGlobals sok g0 supplied -> GoodCall sok call ->
+  forall x, run_lazy t fl cfg supplied budget regexes find call fuel matches g0 <> Panic x.
+Proof.
+  intros Hwf Hm Hg Hcall x E.
+  exact (exec_panics_lazy sok (fun _ => False) cap_ok t fl cfg supplied budget regexes find call fuel matches g0
+           (cap_ok_from_nodes sok) Hwf Hm Hg Hcall x E).
+Qed.
+
+Theorem exec_only_missing_capture_lazy {rx : Type} (sok : N -> Prop) t fl cfg supplied budget (regexes : list rx) find call fuel matches g0 :
+  WellFormedFile regexes fl -> GoodMatchesLazyResolved sok fl matches -> GoodGlobals sok g0 supplied -> GoodCall sok call ->
+  forall x, run_lazy t fl cfg supplied budget regexes find call fuel matches g0 = Panic x -> x = P_missing_capture.
+Proof.
+  intros Hwf Hm Hg Hcall.
+  exact (exec_panics_lazy sok (fun x => x = P_missing_capture) cap_resolved t fl cfg supplied budget regexes find call fuel matches g0
+           (cap_resolved_from_nodes sok) Hwf Hm Hg Hcall).
+Qed.
+
+Lemma missing_capture_panics_lazy t fl glob call fuel le name fidx sidx l s p :
+  nodes_for_capture (ll_match le) fidx = [] ->
+  leval t fl glob call (S fuel) le (ECapture name QOne fidx sidx l) s p = Panic P_missing_capture.
+Proof. intros H. cbn [leval]. rewrite H. reflexivity. Qed.
